@@ -106,9 +106,13 @@ func (s *Stmt) QueryContext(ctx context.Context, args []driver.NamedValue) (driv
 	}
 
 	execCtx := &types.ExecContext{
-		TxCtx:       s.txCtx,
-		Query:       s.query,
-		NamedValues: args,
+		TxCtx:                s.txCtx,
+		Query:                s.query,
+		NamedValues:          args,
+		Conn:                 s.conn.targetConn,
+		DBName:               s.conn.dbName,
+		IsSupportsSavepoints: true,
+		IsAutoCommit:         s.conn.GetAutoCommit(),
 	}
 
 	ret, err := executor.ExecWithNamedValue(ctx, execCtx,
@@ -177,9 +181,13 @@ func (s *Stmt) ExecContext(ctx context.Context, args []driver.NamedValue) (drive
 	}
 
 	execCtx := &types.ExecContext{
-		TxCtx:       s.txCtx,
-		Query:       s.query,
-		NamedValues: args,
+		TxCtx:                s.txCtx,
+		Query:                s.query,
+		NamedValues:          args,
+		Conn:                 s.conn.targetConn,
+		DBName:               s.conn.dbName,
+		IsSupportsSavepoints: true,
+		IsAutoCommit:         s.conn.GetAutoCommit(),
 	}
 
 	ret, err := executor.ExecWithNamedValue(ctx, execCtx,
